@@ -110,6 +110,9 @@ pub fn init_process() {
         } else {
             "?".to_string()
         };
+        if loc.starts_with("src/") || loc.contains("/verif/sim/") {
+            eprintln!("harness panic at {loc}: {msg}");
+        }
         if let Ok(mut p) = PANICS.lock() {
             p.push((loc, msg));
         }
